@@ -1,7 +1,7 @@
 (** * C06 - every value shown in a violation message is the value Python computes.
     Property theorems only (proofs: Proofs/ExprRefine.v, ExprCorollaries.v, MessageProofs.v). *)
 From Coq Require Import List String ZArith Bool Sorting.Permutation.
-From ICV Require Import Expr PyPrims Message ExprCase ExprRefine ExprCorollaries MessageProofs.
+From ICV Require Import Expr PyPrims Message ExprCase ExprRefine ExprCorollaries ExprRange ExprSound MessageProofs.
 Import ListNotations.
 Open Scope string_scope.
 Open Scope list_scope.
@@ -64,6 +64,54 @@ Theorem C06_all_first (P : prims) elt names envs v inputs :
     inputs = map (fun n => (n, match lookup m n with Some w => w | None => VNone end)) names.
 Proof. exact (first_failing_is_first P elt names envs v inputs). Qed.
 Print Assumptions C06_all_first.
+
+(** *All* conditions, comprehensions, generator expressions and all(<generator>) included (keyword arguments to
+    all(<generator>) - which Python rejects - excepted: [wf]), under *every* data model: whenever the re-evaluator
+    returns, it returns Python's value, ends in Python's tables, and what it recorded for the nodes outside
+    comprehension scopes is Python's log - same nodes, same order, same values, the record of a failing
+    all(<generator>) carrying the counterexample in place of False.  (That it returns is the other half: true without
+    comprehensions by the theorem above; with them it is the recorded finding D12b.) *)
+Theorem C06_reevaluation_agrees_whenever_it_returns (P : prims) :
+  forall e, wf e = true ->
+  forall m v m' l x mr lr,
+  ev P 0 e (m, []) = Ok (v, (m', l)) -> rc P 0 e (up m, []) = Ok (x, (mr, lr)) ->
+  x = Some v /\ mr = up m' /\
+  Forall2 rec_ok (filter (fun p => negb (inner_of e (fst p))) lr) l.
+Proof. exact (rc_sound P). Qed.
+Print Assumptions C06_reevaluation_agrees_whenever_it_returns.
+
+(** soundness on all conditions: a value recorded for a node outside comprehension scopes is the value Python
+    computed for that node *)
+Theorem C06_sound_all (P : prims) :
+  forall e, wf e = true ->
+  forall m v m' l x mr lr i w,
+  ev P 0 e (m, []) = Ok (v, (m', l)) -> rc P 0 e (up m, []) = Ok (x, (mr, lr)) ->
+  In (i, w) lr -> inner_of e i = false ->
+  exists w', In (i, w') l /\ (w = w' \/ exists y inp, w = VAllFail y inp).
+Proof. exact (recorded_was_evaluated P). Qed.
+Print Assumptions C06_sound_all.
+
+(** completeness on all conditions: every node Python evaluated outside comprehension scopes is recorded *)
+Theorem C06_complete_all (P : prims) :
+  forall e, wf e = true ->
+  forall m v m' l x mr lr i w',
+  ev P 0 e (m, []) = Ok (v, (m', l)) -> rc P 0 e (up m, []) = Ok (x, (mr, lr)) ->
+  In (i, w') l ->
+  exists w, In (i, w) lr /\ (w = w' \/ exists y inp, w = VAllFail y inp).
+Proof. exact (evaluated_was_recorded P). Qed.
+Print Assumptions C06_complete_all.
+
+(** non-vacuity: all(v > lim for v in xs) and xs[0] > 0 with a failing element - both evaluations return *)
+Definition ex_all : expr :=
+  EBool true (ECons (ECall (EName "all")
+     (ECons (EComp KGen (ECmp (EName "v") (CCons CGt (EName "lim") CNil)) EOmit
+                   (GCons ["v"] false (EName "xs") ENil GNil)) ENil) KNil)
+     (ECons (ECmp (ESub (EName "xs") (EConst (VInt 0))) (CCons CGt (EConst (VInt 0)) CNil)) ENil)).
+Example C06_example_all :
+  wf ex_all = true /\
+  (exists v m' l, ev py_prims 0 ex_all ([("xs", VList [VInt 5; VInt 1]); ("lim", VInt 2)], []) = Ok (v, (m', l))) /\
+  (exists x mr lr, rc py_prims 0 ex_all (up [("xs", VList [VInt 5; VInt 1]); ("lim", VInt 2)], []) = Ok (x, (mr, lr))).
+Proof. split; [reflexivity|]. split; [eexists; eexists; eexists|eexists; eexists; eexists]; vm_compute; reflexivity. Qed.
 
 (** non-vacuity: a condition with `or` nested in a call, a chained comparison and an attribute *)
 Definition ex_body : expr :=
